@@ -283,20 +283,28 @@ def build_harness(ctx, package, extra_args=()):
 
 
 def run_harness(ctx, cmd, timeout=1800, stdin=None, env=None):
+    """Runs a harness command.  Exit 2 = tool error.  Any other failure is a crash of the process that runs the code under
+    test: the same command is run once more; a crash that repeats is reported (HarnessCrash -> violation), one that does
+    not is noted in the evidence as an unreproduced crash (a verdict needs something that can be replayed)."""
     e = dict(os.environ)
     if env:
         e.update(env)
-    try:
-        p = subprocess.run(cmd, cwd=ctx.work, stdout=subprocess.PIPE, stderr=subprocess.PIPE, timeout=timeout,
-                           text=True, stdin=stdin, env=e)
-    except subprocess.TimeoutExpired:
-        raise ToolError("harness timed out: %s" % " ".join(cmd))
-    if p.returncode == 2:
-        raise ToolError("harness failed (%d): %s\n%s" % (p.returncode, " ".join(cmd), (p.stdout + p.stderr)[-4000:]))
-    if p.returncode != 0:
+    for attempt in (1, 2):
+        try:
+            p = subprocess.run(cmd, cwd=ctx.work, stdout=subprocess.PIPE, stderr=subprocess.PIPE, timeout=timeout,
+                               text=True, stdin=stdin if attempt == 1 else None, env=e)
+        except subprocess.TimeoutExpired:
+            raise ToolError("harness timed out: %s" % " ".join(cmd))
+        if p.returncode == 0:
+            return p.stdout
+        if p.returncode == 2:
+            raise ToolError("harness failed (%d): %s\n%s" % (p.returncode, " ".join(cmd), (p.stdout + p.stderr)[-4000:]))
         lines = [l for l in (p.stdout + p.stderr).splitlines() if l.strip() and not l.startswith("  ") and "stack backtrace" not in l]
+        if attempt == 1 and stdin is None:
+            ctx.log("the harness process crashed (exit %s); running the same command once more" % p.returncode)
+            ctx.notes.append("unreproduced crash candidate: %s exited with %s: %s" % (" ".join(cmd[:2]), p.returncode, lines[-2:]))
+            continue
         raise HarnessCrash(cmd, p.returncode, lines[-12:])
-    return p.stdout
 
 
 def load_json(path):
@@ -343,6 +351,8 @@ def finish(ctx, level, coverage, assumptions):
         print("KNOWN-FINDING: property=%s %s %s" % (ctx.prop, fid, text))
     coverage = dict(coverage)
     coverage["known_findings_hit"] = [fid for fid, _ in ctx.known_hits]
+    if ctx.notes:
+        coverage["notes"] = list(ctx.notes)
     if not ctx.replay_mode and not os.environ.get("VERIF_REPO"):
         write_evidence(ctx, level, coverage, assumptions, len(ctx.violations))
     if not ctx.violations:
